@@ -56,6 +56,12 @@ struct Cmp : dv::Typed<int, Cmp> {
 		s += bit(A == B); s += bit(A != B); s += bit(A < B); s += bit(A <= B); s += bit(A > B);
 		s += " mixed=";
 		s += bit(a == B); s += bit(a != B);
+		// convertible element type, pointer-to-const views and references: same answers
+		multi::array<double, D> Bd(b);
+		multi::array_cref<int, D> Bc(B.data_elements(), B.extensions());
+		s += bit(a == Bd()); s += bit(a != Bd());
+		s += bit(a == Bc()); s += bit(a != Bc());
+		s += bit(a == Bc); s += bit(a != Bc);
 		out = s;
 	}
 };
